@@ -40,7 +40,7 @@ def setups(draw, kinds=("grid", "grid", "sub", "stream"), loops=(-1, 1, 2, 3), f
 @st.composite
 def ops(draw, n_hint=7, max_len=30, with_close=True):
     out = []
-    kinds = ["next", "next", "next", "nexts", "seek", "seek", "dur", "pad", "args", "size", "rseek", "resize", "tell"]
+    kinds = ["next", "next", "next", "nexts", "seek", "seek", "dur", "pad", "args", "size", "rseek", "resize", "tell", "decoy"]
     if with_close:
         kinds.append("close")
     for _ in range(draw(st.integers(1, max_len))):
@@ -104,6 +104,29 @@ class Lab:
                 finalize=bool(s.get("finalize", True)))
         else:
             self.it = RenderIterator(self.r, args, self.padding(s["pad"], s["fill"]), s["loops"], cache)
+
+    def decoy(self):
+        """Another live iterator over another renderable of the same class, built from caller-made render data, with
+        its own padding, render arguments and frame cache: nothing of it may show in this lab's iterator."""
+        from term_image.render import RenderIterator
+
+        s = self.s
+        if s["kind"] == "stream" or s["n"] < 2:
+            return
+        dur = self.FrameDuration.DYNAMIC if s["dur"] == "DYNAMIC" else s["dur"]
+        r2 = self.H["new"](s["kind"], s["w"], s["h"], s["n"], dur)
+        data = r2._get_render_data_(iteration=True)
+        it = RenderIterator._from_render_data_(
+            r2, data, self.RenderArgs(type(r2), self.H["GridArgs"](9)), self.P.ExactPadding(3, 1, 2, 1, "~"), 2, True)
+        next(it)
+        next(it)
+        if not hasattr(self, "decoys"):
+            self.decoys = []
+        self.decoys.append((it, r2))
+        if len(self.decoys) > 1:  # the older one is exhausted meanwhile
+            old, _ = self.decoys.pop(0)
+            for _ in old:
+                pass
 
     def padding(self, spec, fill):
         P = self.P
